@@ -45,6 +45,10 @@ func (k *vKV) apply(e sm.Entry) sm.Result {
 	k.kv[key] = val
 	k.cnt++
 	k.calls = append(k.calls, e.Index)
+	if key%3 == 2 {
+		// the empty result is a legitimate answer; it must be remembered like any other
+		return sm.Result{}
+	}
 	return sm.Result{Value: k.cnt*1000 + val}
 }
 
